@@ -281,11 +281,11 @@ impl Stream for AsyncDataStream {
                     async_buf.push((id, fut));
                 }
                 Poll::Ready(data) => {
-                    let data = data.replace('<', "\\u003c");
                     _ = write!(
                         resolved,
-                        "__RESOLVED_RESOURCES[{}] = {:?};",
-                        id.0, data
+                        "__RESOLVED_RESOURCES[{}] = {};",
+                        id.0,
+                        js_string(&data)
                     );
                 }
             }
@@ -320,8 +320,16 @@ struct ResolvedData(SerializedDataId, String);
 impl ResolvedData {
     pub fn write_to_buf(&self, buf: &mut String) {
         let ResolvedData(id, ser) = self;
-        // escapes < to prevent it being interpreted as another opening HTML tag
-        let ser = ser.replace('<', "\\u003c");
-        write!(buf, "{}: {:?}", id.0, ser).unwrap();
+        write!(buf, "{}: {}", id.0, js_string(ser)).unwrap();
     }
+}
+
+/// Formats a string as a JavaScript string literal that can be embedded in a `<script>` tag.
+fn js_string(value: &str) -> String {
+    // escapes < to prevent it being interpreted as another opening HTML tag
+    //
+    // this has to happen after the string has been formatted: otherwise, the backslash of
+    // the `\u003c` escape sequence is itself escaped, and the client reads the six
+    // characters `\u003c` instead of `<`
+    format!("{value:?}").replace('<', "\\u003c")
 }
